@@ -38,7 +38,7 @@ def decodedContent (info : Info) (commitNum feerate : Nat) (offered received : L
   (Info2.mk' info.csVal info.bcVal offered received feerate).content commitNum
 
 /-- **C04_phase1_accepts_only_canon.**  Whatever phase 1 signs is the canonical transaction of the
-    content it decoded and validated — the signature is `sign fundingKey (sighash canon)`, nothing
+    content it decoded and validated — the signature is `sign fundingKey (sighash canon channelValue)`, nothing
     caller-supplied is signed (this part needs no assumption on the policy filter) — and, when the
     filter treats `policy-commitment` as an error, the submitted transaction *is* that canonical
     transaction. -/
@@ -48,7 +48,7 @@ theorem C04_phase1_accepts_only_canon (env : Env) (s : Setup) (k : Keys) (tx : C
     ∃ info rtx,
       decode wsh s k tx ws = some info ∧
       canon wsh okey s k (decodedContent info commitNum feerate offered received) = some rtx ∧
-      sig = cr.sign env.fundingKey (cr.sighash rtx) ∧
+      sig = cr.sign env.fundingKey (cr.sighash rtx s.channelValue) ∧
       (env.mismatchIsError = true → tx = rtx) := by
   unfold phase1 at h
   split at h
@@ -197,7 +197,7 @@ theorem C04_mutation_witscript (hw : Function.Injective wsh) (env : Env) (s : Se
 theorem C04_htlc_sigs_canon (env : Env) (s : Setup) (k : Keys) (c : Content) (sig : S) (hsigs : List S)
     (h : phase2 wsh okey cr env s k c = .ok (sig, hsigs)) :
     ∃ rtx, canon wsh okey s k c = some rtx ∧
-      sig = cr.sign env.fundingKey (cr.sighash rtx) ∧
+      sig = cr.sign env.fundingKey (cr.sighash rtx s.channelValue) ∧
       hsigs = (htlcTxs wsh okey s k c rtx).map (fun t => cr.sign env.htlcKey (cr.htlcSighash t)) ∧
       (htlcTxs wsh okey s k c rtx).length = c.offered.length + c.received.length ∧
       ∀ t ∈ htlcTxs wsh okey s k c rtx, t.parent = rtx ∧
@@ -247,6 +247,28 @@ theorem C04_htlc_sigs_canon (env : Env) (s : Setup) (k : Keys) (c : Content) (si
     rw [hj, heq]
     rfl
 
+/-- **C04_restart_same_sig.**  A restart does not change what is signed: persisting a channel and
+    restoring it (`Node::new_from_persistence`: stored `ChannelSetup` + stored `channel_value_satoshis`)
+    is the identity on the setup, so both entry points return, before and after a restart, the same
+    result for the same keys and content — the signature is a function of setup, keys and content only,
+    and in particular commits to the negotiated channel value (`sighash rtx s.channelValue`). -/
+theorem C04_restart_same_sig (env : Env) (s : Setup) (k : Keys) (c : Content)
+    (tx : CTx H) (ws : List (Option Script)) (commitNum feerate : Nat) (offered received : List Htlc) :
+    restoreChannel (persistChannel s) = s ∧
+    phase2 wsh okey cr env (restoreChannel (persistChannel s)) k c = phase2 wsh okey cr env s k c ∧
+    phase1 wsh okey cr env (restoreChannel (persistChannel s)) k tx ws commitNum feerate offered received
+      = phase1 wsh okey cr env s k tx ws commitNum feerate offered received := by
+  have h : restoreChannel (persistChannel s) = s := rfl
+  exact ⟨h, by rw [h], by rw [h]⟩
+
+/-- What a restore with the wrong amount would do (the shape of a seeded defect): the commitment
+    signature of phase 2 commits to that amount instead of the negotiated channel value. -/
+theorem C04_restart_amount_matters (env : Env) (s : Setup) (k : Keys) (c : Content) (v : Nat) (sig : S) (hs : List S)
+    (h : phase2 wsh okey cr env (restoreChannel ⟨s, v⟩) k c = .ok (sig, hs)) :
+    ∃ rtx, sig = cr.sign env.fundingKey (cr.sighash rtx v) := by
+  obtain ⟨rtx, _, h2, _⟩ := C04_htlc_sigs_canon wsh okey cr env (restoreChannel ⟨s, v⟩) k c sig hs h
+  exact ⟨rtx, h2⟩
+
 /-! ## Byte layer (`Model/Bolt3Bytes.lean`)
 
 The byte-level instance of the model: `H := Nat` (256-bit P2WSH programs), `wshB env` = SHA-256 (executable,
@@ -284,7 +306,7 @@ theorem C04_phase1_accepts_only_canon_bytes (e : Env) (hm : e.mismatchIsError = 
     ∃ info rtx,
       decode (wshB env) s k tx ws = some info ∧
       canon (wshB env) (okeyB env) s k (decodedContent info commitNum feerate offered received) = some rtx ∧
-      ser env tx = ser env rtx ∧ sig = crB.sign e.fundingKey (crB.sighash rtx) := by
+      ser env tx = ser env rtx ∧ sig = crB.sign e.fundingKey (crB.sighash rtx s.channelValue) := by
   obtain ⟨info, rtx, h1, h2, h3, h4⟩ :=
     C04_phase1_accepts_only_canon (wshB env) (okeyB env) crB e s k tx ws commitNum feerate offered received sig h
   exact ⟨info, rtx, h1, h2, by rw [h4 hm], h3⟩
@@ -336,7 +358,7 @@ def wId : Script → Script := id
 /-- an injective order key on concrete script_pubkeys is not needed for the witnesses below: they have
     outputs with pairwise different values -/
 def kZero : Spk Script → Nat := fun _ => 0
-def crX : Crypto Script (CTx Script) (Key × CTx Script) := ⟨id, fun t => t.parent, fun k m => (k, m)⟩
+def crX : Crypto Script (CTx Script × Nat) (Key × CTx Script × Nat) := ⟨fun t a => (t, a), fun t => (t.parent, t.amount), fun k m => (k, m)⟩
 def envOk : Env := ⟨true, fun _ _ => .ok (), fun _ _ => true, true, 100, 101⟩
 def keysX : Keys := ⟨1, 2, 3, 4, 5, 6, 7⟩
 def setupOf (t : CType) : Setup := ⟨t, true, 6, 7, 2, 0, 3000000, 0x2bb038521914⟩
